@@ -6,14 +6,15 @@ ENC = ["cminx.document (os.walk loop, pruning, auto-exclusion, index.rst constru
 STUBS = "stubs: os.walk/scandir/isdir/isfile/exists/makedirs/abspath (virtual tree), pathspec matcher = symbolic verdict per path, " \
         "Documenter = writer whose text is a function of (file, title, module name), write_to_file/print recorded"
 
-S1 = ("in", [], ["b.cmake", "A.CMAKE", "c.txt", "a-1.x.cmake"])
+S1 = ("in", [], ["b.cmake", "A.CMAKE", "c.txt", "a-1.x.cmake", "a.cmake"])      # a-1.x.cmake < a.cmake by name, > by (stem, ext)
 S2 = ("in", [("z0", [], ["x.cmake"]), ("y1", [], ["x.cmake", "n.txt"])], ["b.cmake", "c.txt"])
 S2q = ("in", [("z0", [], ["x.cmake"]), ("y1", [], ["x.cmake"])], ["b.cmake"])
 S2b = ("in", [("z0", [], ["n.txt"]), ("y1", [], ["M.CMake", "m.cmake"]), ("x2", [], ["q.cmake"])], ["b.cmake"])
 S3 = ("in", [("d1", [("d2", [("d3", [], ["k.cmake"])], ["j.cmake"])], ["i.cmake"])], ["h.cmake"])
 S4 = ("in", [("mid", [("deep", [], ["k.cmake"])], ["n.txt"])], ["h.cmake"])
 S5 = ("in", [("docs", [], ["old.rst"])], ["h.cmake", "g.cmake"])
-SKELS = {"S1": S1, "S2": S2, "S2q": S2q, "S2b": S2b, "S3": S3, "S4": S4, "S5": S5}
+S6 = ("in", [("Pkg", [], ["one.cmake"]), ("pkg", [], ["two.cmake"])], ["Utils.cmake", "utils.cmake", "alpha.cmake"])     # names differing only in case
+SKELS = {"S6": S6, "S1": S1, "S2": S2, "S2q": S2q, "S2b": S2b, "S3": S3, "S4": S4, "S5": S5}
 
 
 def tree_ob(prefix, skel, mode, fix, fixp=True, fixrev=False, timeout=300, note="", fixexcl=False):
